@@ -28,6 +28,7 @@ KNOWN_WRAPPED_SHAPE = "RoundSolidShape(WrappedDisk).shell:holds-inner-ring"
 
 SKETCHES = [
     "OneCoreDisk", "QuarterDisk", "HalfDisk", "FourCoreDisk", "WrappedDisk", "Oval", "Annulus4", "Annulus8", "Annulus5",
+    "Annulus3", "Annulus6", "Annulus7", "Annulus12",  # no table row: answered by the parametric model `annulusCells n`
     "QuarterSplineDisk", "HalfSplineDisk", "SplineDisk", "QuarterSplineRing", "HalfSplineRing", "SplineRing",
 ]
 SHAPES = ["Cylinder", "SemiCylinder", "Frustum", "Elbow", "ExtrudedRing4", "ExtrudedRing8", "ExtrudedRing5", "ExtrudedRing6",
@@ -568,6 +569,8 @@ class C19(core.Check):
             return reqs
         if case["kind"] == "ringdel":
             return []  # oracle only (identity of operations: T_C19_delete / T_C19_delete_copy)
+        if case["kind"] == "sketch" and case["name"].startswith("Annulus"):
+            return [f"c19.annulus {case['name'][7:]}"]  # the annulus for any number of segments (T_C19_annulus)
         name = table_name(case["name"])
         if name is None:
             return []
@@ -612,7 +615,7 @@ class C19(core.Check):
         if fields["cells"] != show(impl["cells"]):
             return f"{case['name']} cells: implementation {show(impl['cells'])} / table {fields['cells']}"
         if case["kind"] == "sketch":
-            for k in ("grid", "core", "shell"):
+            for k in ("grid", "core", "shell") + (("rim",) if "rim" in fields else ()):
                 if fields[k] != show(impl[k]):
                     return f"{case['name']} {k}: implementation {show(impl[k])} / table {fields[k]}"
             return None
